@@ -63,12 +63,23 @@ def cut(fn, ordinal, carried, ctl_name="__vc"):
     mod = ast.parse(src)
     fdef = mod.body[0]
     fdef.decorator_list = []
+    from .core import Undecided
+
     loops = [n for n in ast.walk(fdef) if isinstance(n, ast.For)]
     loops.sort(key=lambda n: (n.lineno, n.col_offset))
+    # a contract that cuts a loop is tied to the SHAPE of the function (which loop, which loop-carried variables).  When the
+    # function no longer has that shape the proof does not apply - that is 'undecided' (the runner then falls back to native
+    # evaluation of the same contract), never a violation: a rewrite of the loop may be perfectly harmless
+    if ordinal >= len(loops):
+        raise Undecided("loop-cut contract no longer matches %s: no `for` loop #%d" % (fdef.name, ordinal))
     target = loops[ordinal]
     for n in ast.walk(target):
         if isinstance(n, (ast.Break, ast.Continue, ast.Return)) or (isinstance(n, ast.For) and n.orelse):
-            raise ValueError("loop not admissible for cutting")
+            raise Undecided("loop-cut contract no longer matches %s: the loop has break / continue / return" % fdef.name)
+    bound = {a.arg for a in fdef.args.args + fdef.args.kwonlyargs} | {n.id for n in ast.walk(fdef) if isinstance(n, ast.Name) and isinstance(n.ctx, ast.Store)}
+    for c in carried:
+        if c not in bound:
+            raise Undecided("loop-cut contract no longer matches %s: no variable `%s`" % (fdef.name, c))
     names = ", ".join(carried)
     tup = f"({names},)" if carried else "()"
     lhs = tup if carried else "__none"
@@ -113,11 +124,14 @@ def run_cut(vc, fn, ordinal, carried, phase, state, check, args, kwargs=None):
         r = newf(*args, **(kwargs or {}))
     except PathDone:
         if ctl.missing:
-            vc.prove("loop_has_the_expected_iteration", False, note=dict(iteration=phase, iterations=ctl.n))
+            from .core import Undecided
+
+            raise Undecided("loop-cut contract expects iteration %s, the loop has %s" % (phase, ctl.n))
         return "done", None
     finally:
         newf.__globals__.pop("__vc", None)
     if mode != "post":
-        vc.prove("loop_cut_point_reached", False)
-        return "done", None
+        from .core import Undecided
+
+        raise Undecided("loop-cut contract: the function returned without reaching the loop")
     return "post", r
